@@ -95,6 +95,8 @@ def run(cx):
     resend_schedule(cx, "C12.q")
     from props.shared import resend_ref_in_own_frame
     resend_ref_in_own_frame(cx, "C12.j")
+    from props.shared import resend_refs_untouched
+    resend_refs_untouched(cx, "C12.r")
     # "not transmitted again once the receiver has reported moving past the packet" compares window bases, which
     # are circular ids
     from props.idarith import id_arith_discipline
